@@ -11,6 +11,7 @@ import pulsarbat as pb
 from .. import exact, gen, probes, monitors, oracles
 
 from ..replay import wl_R
+from .C06 import make_dm
 
 RULE = ("stratified random signals (6 classes x length {0,1,2,prime,2^k,7-smooth+-1} x sample rank x rate decade mHz..4GHz x "
         "start {None, Time in utc/tai/tt}) x slices (missing/negative/out-of-range bounds, step 1-7, start>stop, combined with "
@@ -248,6 +249,20 @@ class CropperMonitor:
             else:
                 tt = exact.fr(t)
             self._advance(o, m, out, tt, feats, ops=3)
+            # the labelled samples are the data: a request (numerically) on the sample grid returns input samples [k:k+n]
+            k = round(tt)
+            if abs(tt - k) < F(1, 10 ** 5) and len(out) == int(n) and int(n) > 0 and 0 <= k and k + int(n) <= m["len"]:
+                with probes.quiet():
+                    x = np.asarray(gen.np_data(args[0]))[k:k + int(n)]
+                    y = np.asarray(gen.np_data(out))
+                if x.shape == y.shape and np.all(np.isfinite(x)):
+                    ctx.count("oracle[snippet_grid_data]")
+                    scale = float(np.sqrt(np.sum(np.abs(np.asarray(gen.np_data(args[0]), dtype=np.complex128)) ** 2)))
+                    err = float(np.sqrt(np.sum(np.abs(y.astype(np.complex128) - x) ** 2)))
+                    if err > 1e-2 * scale + 1e-300:
+                        ctx.violation(o, f"snippet at t = {float(tt)!r} samples (on the grid within 1e-5) is labelled as starting at input sample {k} "
+                                         f"but its data are not input samples [{k}:{k + int(n)}] (l2 difference {err:.3e}, input norm {scale:.3e})",
+                                      None, dict(feats, what="grid_data"))
         elif name == "coherent_dedispersion":
             z, dm = args[0], args[1]
             ref = kwargs.get("ref_freq")
@@ -490,7 +505,10 @@ def wl_pipeline(ctx, idx, rng):
 
 def wl_croppers(ctx, idx, rng):
     """Cropping transforms with their own ledgers: time_shift(crop) with arrays, fractional snippets, dedispersion."""
-    op = ["tshift", "tshift_q", "coherent", "incoherent", "snippet_frac", "fast_len"][idx % 6]
+    op = ["tshift", "tshift_q", "coherent", "incoherent", "snippet_frac", "fast_len", "snippet_grid"][idx % 7]
+    grid = op == "snippet_grid"
+    if grid:
+        op = "snippet_frac"
     dec = int(rng.integers(0, 9))
     start = gen.rand_time(rng, p_none=0.2)
     if op in ("tshift", "tshift_q", "snippet_frac"):
@@ -503,19 +521,23 @@ def wl_croppers(ctx, idx, rng):
             k = int(rng.integers(0, n + 1))
             t = float(rng.uniform(0, n - k)) if n - k > 0 else 0.0
             form = int(rng.integers(3))
+            if grid:
+                # a start on the sample grid written as a time: the conversion back to samples carries rounding fuzz of either sign
+                t = float(int(t))
+                form = 1 + int(rng.integers(2))
             if form == 1:
                 targ = (t / sig.sample_rate).to(u.s)
             elif form == 2 and sig.start_time is not None:
                 targ = sig.start_time + (t / sig.sample_rate)
             else:
                 targ = t
-            desc.update(op=op, t=t, n=k, form=form)
+            desc.update(op=op, t=t, n=k, form=form, grid=grid)
             ctx.describe_case(desc)
             out, exc = ctx.call("ledger_snippet", pb.snippet, sig, targ, k, expect="any")
             if exc is not None:
                 if not isinstance(exc, ValueError) or form == 0:
                     # numeric forms inside range must not raise
-                    if not (form != 0 and (t < 1e-6 * n or n - k - t < 1e-6 * n + 1e-9)):
+                    if not (form != 0 and (t < 1e-6 * n + 1e-9 or n - k - t < 1e-6 * n + 1e-9)):
                         ctx.unexpected_exception("ledger_snippet", exc, "snippet in range")
                 return
             if len(out) and out.start_time is not None:
@@ -569,7 +591,7 @@ def wl_croppers(ctx, idx, rng):
     per_dm = 4149.377593360996e12 * abs((fchz - bw / 2) ** -2 - (fchz + bw / 2) ** -2) * srhz + 1e-300
     target = rng.uniform(0.2, n * 0.6) if rng.random() < 0.85 else rng.uniform(n * 0.6, n * 1.5)
     dmval = float(target / per_dm) * gen.pick(rng, [1, 1, -1])
-    dm = pb.DispersionMeasure(dmval)
+    dm = make_dm(rng, dmval)
     rk = int(rng.integers(5))
     ref = [None, sig.min_freq, sig.max_freq, sig.center_freq * 1.3, sig.center_freq * 0.7][rk]
     desc.update(op=op, dm=dmval, ref=str(ref))
@@ -599,7 +621,7 @@ def workloads(ctx):
     return [("R", 1, wl_R), 
         ("slices", 2400 if q else 120000, wl_slices),
         ("pipeline", 400 if q else 20000, wl_pipeline),
-        ("croppers", 480 if q else 24000, wl_croppers),
+        ("croppers", 840 if q else 28000, wl_croppers),
     ]
 
 
